@@ -53,18 +53,22 @@ _NUM = (int, float, complex, np.integer, np.floating, np.complexfloating, Fracti
 
 
 class Aff:
-    __slots__ = ("c", "sp")
+    """c: coefficient vector; sp: Space; p: precision taint (1 = the value has
+    passed through single-precision storage / a single-precision transform)."""
 
-    def __init__(self, c, sp):
+    __slots__ = ("c", "sp", "p")
+
+    def __init__(self, c, sp, p=0):
         self.c = c
         self.sp = sp
+        self.p = p
 
     # -- helpers
     @staticmethod
-    def const(v, sp):
+    def const(v, sp, p=0):
         c = np.zeros(sp.dim, complex)
         c[0] = v
-        return Aff(c, sp)
+        return Aff(c, sp, p)
 
     def is_const(self):
         return not self.c[1:].any()
@@ -89,15 +93,15 @@ class Aff:
             return NotImplemented
         if isinstance(o, Aff):
             n = max(len(self.c), len(o.c))
-            return Aff(_pad(self.c, n) + _pad(o.c, n), self.sp)
+            return Aff(_pad(self.c, n) + _pad(o.c, n), self.sp, self.p | o.p)
         c = self.c.copy()
         c[0] += o
-        return Aff(c, self.sp)
+        return Aff(c, self.sp, self.p)
 
     __radd__ = __add__
 
     def __neg__(self):
-        return Aff(-self.c, self.sp)
+        return Aff(-self.c, self.sp, self.p)
 
     def __pos__(self):
         return self
@@ -120,11 +124,11 @@ class Aff:
             return NotImplemented
         if isinstance(o, Aff):
             if o.is_const():
-                return Aff(self.c * o.c[0], self.sp)
+                return Aff(self.c * o.c[0], self.sp, self.p | o.p)
             if self.is_const():
-                return Aff(o.c * self.c[0], self.sp)
+                return Aff(o.c * self.c[0], self.sp, self.p | o.p)
             raise NonAffine("product of two data-dependent quantities")
-        return Aff(self.c * o, self.sp)
+        return Aff(self.c * o, self.sp, self.p)
 
     __rmul__ = __mul__
 
@@ -132,11 +136,13 @@ class Aff:
         o = self._co(o)
         if o is None:
             return NotImplemented
+        p = self.p
         if isinstance(o, Aff):
             if not o.is_const():
                 raise NonAffine("division by a data-dependent quantity")
+            p |= o.p
             o = o.c[0]
-        return Aff(self.c / o, self.sp)
+        return Aff(self.c / o, self.sp, p)
 
     def __rtruediv__(self, o):
         o = self._co(o)
@@ -145,14 +151,14 @@ class Aff:
         if not self.is_const():
             raise NonAffine("division by a data-dependent quantity")
         if isinstance(o, Aff):
-            return Aff(o.c / self.c[0], self.sp)
-        return Aff.const(o / self.c[0], self.sp)
+            return Aff(o.c / self.c[0], self.sp, self.p | o.p)
+        return Aff.const(o / self.c[0], self.sp, self.p)
 
     def __pow__(self, k):
         if isinstance(k, Aff):
             k = k.value()
         if self.is_const():
-            return Aff.const(self.c[0] ** k, self.sp)
+            return Aff.const(self.c[0] ** k, self.sp, self.p)
         if k == 1:
             return self
         raise NonAffine("power of a data-dependent quantity")
@@ -194,16 +200,16 @@ class Aff:
 
     # -- functions (numpy ufuncs on object arrays call these methods)
     def sqrt(self):
-        return Aff.const(cmath.sqrt(self.value()), self.sp)
+        return Aff.const(cmath.sqrt(self.value()), self.sp, self.p)
 
     def conjugate(self):
-        return Aff(np.conj(self.c), self.sp)
+        return Aff(np.conj(self.c), self.sp, self.p)
 
     conj = conjugate
 
     def exp(self):
         if self.is_const():
-            return Aff.const(cmath.exp(self.c[0]), self.sp)
+            return Aff.const(cmath.exp(self.c[0]), self.sp, self.p)
         # exp(c0 + i * sum a_j x_j): a unit-modulus phase in the position
         # variables.  It is represented by two fresh real variables (C, S) in
         # [-1, 1] per distinct linear part: exp(i th) = C + i S.  Independent
@@ -227,29 +233,63 @@ class Aff:
         e0 = cmath.exp(self.c[0])
         c[iC] = e0
         c[iS] = 1j * sign * e0
-        return Aff(c, sp)
+        return Aff(c, sp, self.p)
 
     @property
     def real(self):
-        return Aff(self.c.real.astype(complex), self.sp)
+        return Aff(self.c.real.astype(complex), self.sp, self.p)
 
     @property
     def imag(self):
-        return Aff(self.c.imag.astype(complex), self.sp)
+        return Aff(self.c.imag.astype(complex), self.sp, self.p)
+
+    def single(self):
+        """the value after a round trip through single-precision storage"""
+        return Aff(self.c, self.sp, 1)
 
     def __repr__(self):
         nz = np.nonzero(self.c)[0]
         return "Aff(" + " + ".join("%s*%s" % (self.c[j], self.sp.names[j]) for j in nz[:6]) + ")"
 
 
+_SP = [None]  # the Space of the shim that created the most recent tagged array
+
+
 class SymArr(np.ndarray):
     """object ndarray whose elements are Aff (or numbers)."""
+
+    tag = None  # 'c8' for arrays created with a single-precision complex dtype
+
+    def __array_finalize__(self, obj):
+        self.tag = getattr(obj, "tag", None)
 
     def __array_wrap__(self, arr, context=None, return_scalar=False):
         # reductions give the element itself, as for plain object arrays
         if arr.ndim == 0:
             return arr[()]
-        return arr.view(SymArr)
+        out = arr.view(SymArr)
+        out.tag = None  # results of arithmetic are fresh (promoted) arrays
+        return out
+
+    def __setitem__(self, key, val):
+        if self.tag == "c8":
+            # storing into single-precision storage rounds the value
+            if isinstance(val, Aff):
+                val = val.single()
+            elif isinstance(val, np.ndarray) and val.dtype == object:
+                v2 = np.empty(val.shape, dtype=object)
+                for idx in np.ndindex(val.shape):
+                    e = val[idx]
+                    v2[idx] = e.single() if isinstance(e, Aff) else Aff.const(e, _SP[0], 1)
+                val = v2
+            elif isinstance(val, np.ndarray):
+                v2 = np.empty(val.shape, dtype=object)
+                for idx in np.ndindex(val.shape):
+                    v2[idx] = Aff.const(val[idx], _SP[0], 1)
+                val = v2
+            elif isinstance(val, _NUM):
+                val = Aff.const(val, _SP[0], 1)
+        np.ndarray.__setitem__(self, key, val)
 
     @property
     def real(self):
@@ -306,11 +346,26 @@ def coeffs(x, sp):
     return C
 
 
-def from_coeffs(C, sp):
+def from_coeffs(C, sp, p=0):
     out = np.empty(C.shape[:-1], dtype=object)
     for idx in np.ndindex(out.shape):
-        out[idx] = Aff(C[idx].copy(), sp)
+        out[idx] = Aff(C[idx].copy(), sp, p)
     return out.view(SymArr)
+
+
+def taints(x):
+    """per-element precision taint of an object array (0 for plain numbers)"""
+    x = np.asarray(x)
+    t = np.zeros(x.shape, int)
+    if x.dtype != object:
+        return t
+    for idx in np.ndindex(x.shape):
+        e = x[idx]
+        if isinstance(e, np.ndarray) and e.ndim == 0:
+            e = e[()]
+        if isinstance(e, Aff):
+            t[idx] = e.p
+    return t
 
 
 # ---------------------------------------------------------------------------
@@ -356,10 +411,15 @@ class NPShim:
             for d in shape:
                 if d < 0:
                     raise ValueError("negative dimensions are not allowed")
+            single = np.dtype(dtype) == np.complex64
             out = np.empty(tuple(shape), dtype=object)
             for idx in np.ndindex(out.shape):
-                out[idx] = Aff.const(v, self._sp)
-            return out.view(SymArr)
+                out[idx] = Aff.const(v, self._sp, 1 if single else 0)
+            out = out.view(SymArr)
+            if single:
+                out.tag = "c8"
+                _SP[0] = self._sp
+            return out
         return None
 
     def zeros(self, shape, dtype=float, **k):
@@ -390,7 +450,9 @@ def dft2(x, sp, inverse, norm):
     C = coeffs(x, sp)
     f = np.fft.ifft2 if inverse else np.fft.fft2
     C = f(C, axes=(-3, -2), norm=norm)
-    return from_coeffs(C, sp)
+    # a transform of single-precision data is a single-precision transform
+    p = int(taints(x).max()) if x.size else 0
+    return from_coeffs(C, sp, p)
 
 
 # ---------------------------------------------------------------------------
